@@ -51,7 +51,8 @@ struct Desc {
   long ncells;               // number of parent cells
   long gbase;                // gradient index of parent cell 0 (active only)
   bool plain;                // BLAS is expected to read this operand in place
-  Desc() : rank(0), base(0), active(false), pbase(0), ncells(0), gbase(-1), plain(true) { d[0] = d[1] = o[0] = o[1] = 0; }
+  long margin;               // band matrices: max(LDiags,UDiags), else 0
+  Desc() : rank(0), base(0), active(false), pbase(0), ncells(0), gbase(-1), plain(true), margin(0) { d[0] = d[1] = o[0] = o[1] = 0; }
   std::string str() const {
     std::ostringstream os;
     os << rank << " d=" << d[0]; if (rank == 2) os << "," << d[1];
@@ -149,8 +150,10 @@ template <class E> long cell_of(SpecialMatrix<double, E, false>& S, const double
 template <class E> long cell_of(SpecialMatrix<double, E, true>& S, const double*, long, long gbase, Index i, Index j) {
   try { return (long)S(i, j).gradient_index() - gbase; } catch (const index_out_of_bounds&) { return -1; }
 }
+template <class E> struct BandMargin { static const long value = 0; };
+template <MatrixStorageOrder O, Index LD, Index UD> struct BandMargin<BandEngine<O, LD, UD> > { static const long value = LD > UD ? LD : UD; };
 template <class E, bool A> void describe(SpecialMatrix<double, E, A>& S, const double* pbase, long ncells, long gbase, Desc& D) {
-  D.rank = 2; D.active = A;
+  D.rank = 2; D.active = A; D.margin = BandMargin<E>::value;
   D.d[0] = D.d[1] = S.dimension(0); D.o[0] = S.offset(); D.o[1] = 0;
   D.pbase = pbase; D.ncells = ncells; D.gbase = gbase;
   D.base = S.dimension(0) == 0 ? 0 : S.const_data() - pbase;
@@ -274,10 +277,18 @@ template <class E, bool A, int VAR, class V> void build_S1(const Spec& s, V& vis
   for (long k = 0; k < ncells; ++k) P.data()[k] = s.vals[k];
   const double* pbase = P.const_data();
   long gbase = A ? (long)P.gradient_index() : -1;
-  SpecialMatrix<double, E, A> cur(P);
+  // views are chained by copy construction (SpecialMatrix::link / operator>>= loses the gradient index of an active
+  // matrix: SpecialMatrix.h:1365 lacks the GradientIndex::set that Array::link has)
+  struct Chain {
+    std::vector<SpecialMatrix<double, E, A>*> v;
+    ~Chain() { for (size_t i = v.size(); i > 0; --i) delete v[i - 1]; }
+  } chain;
+  chain.v.push_back(new SpecialMatrix<double, E, A>(P));
   size_t k = 4;
   long a, b;
-  for (; k < h.size() && split2(h[k], 'd', a, b); ++k) { SpecialMatrix<double, E, A> nx(cur.submatrix_on_diagonal(a, b)); cur >>= nx; }
+  for (; k < h.size() && split2(h[k], 'd', a, b); ++k)
+    chain.v.push_back(new SpecialMatrix<double, E, A>(chain.v.back()->submatrix_on_diagonal(a, b)));
+  SpecialMatrix<double, E, A>& cur = *chain.v.back();
   bool tr = false, x2 = false;
   if (k < h.size() && h[k] == "T") { tr = true; ++k; }
   else if (k < h.size() && h[k] == "x2") { x2 = true; ++k; }
@@ -334,10 +345,12 @@ extern verif::SpyStack* g_stack;
 inline std::string classify_ptr(const void* p, const Desc& L, const Desc& R, const double* cbase, long clen_hint) {
   const double* q = static_cast<const double*>(p);
   std::ostringstream os;
-  // the start pointer of a band matrix may lie up to a few cells before the storage: allow a margin of 8 cells
-  if (L.pbase && L.plain && q >= L.pbase - 8 && q < L.pbase + L.ncells) { os << "L" << (q - L.pbase >= 0 ? "+" : "") << (q - L.pbase); return os.str(); }
-  if (R.pbase && R.plain && q >= R.pbase - 8 && q < R.pbase + R.ncells) { os << "R" << (q - R.pbase >= 0 ? "+" : "") << (q - R.pbase); return os.str(); }
+  if (L.pbase && L.plain && q >= L.pbase && q < L.pbase + L.ncells) { os << "L+" << (q - L.pbase); return os.str(); }
+  if (R.pbase && R.plain && q >= R.pbase && q < R.pbase + R.ncells) { os << "R+" << (q - R.pbase); return os.str(); }
   if (cbase && q >= cbase && q < cbase + clen_hint) { os << "C+" << (q - cbase); return os.str(); }
+  // the start pointer handed to ?gbmv for a band matrix lies up to max(LDiags,UDiags) cells before its storage
+  if (L.pbase && L.plain && L.margin && q >= L.pbase - L.margin && q < L.pbase) { os << "L" << (q - L.pbase); return os.str(); }
+  if (R.pbase && R.plain && R.margin && q >= R.pbase - R.margin && q < R.pbase) { os << "R" << (q - R.pbase); return os.str(); }
   return "T";
 }
 
